@@ -101,3 +101,8 @@ PREEMPT_LEVEL = (" A second part (flow-preempt) adds statement-level scheduling 
 for _id in ("C01", "C02", "C04", "C06", "C11", "C13"):
     TEXT[_id]["technique"] += " + single-preemption sweep over statement-level scheduling points (part flow-preempt)"
     TEXT[_id]["level"] += PREEMPT_LEVEL
+
+TEXT["C07"]["technique"] += " + bounded-exhaustive enumeration of the real dlqWindow / DLQ handlers of both engines against a reference model (parts window-v1, window-v2, parity)"
+TEXT["C07"]["level"] += (" Window arithmetic: for every window size and threshold 0..5 and every ack/nack sequence up to length 10 (v2: length 9 x every partition into batches) "
+                         "the real dlqWindow of each engine is compared with a reference (last N outcomes, tolerated iff rejections among them <= T, frozen after the first refusal); the exported "
+                         "DLQHandlerNode (v1) and DLQ (v2) are driven with the same sequences and must take identical decisions (incl. fatal vs plain refusal) and write exactly the tolerated rejections, in order, to the DLQ.")
